@@ -3,16 +3,16 @@
 import glob, json, os, re, shutil, subprocess, sys
 sys.path.insert(0, "/verif")
 res = {}
-for f in glob.glob("/tmp/confirm_results/C??_?") + glob.glob("/tmp/confirm_results/D??_?") + glob.glob("/tmp/confirm_results/E??_?") + glob.glob("/tmp/confirm_results/F??_?") + glob.glob("/tmp/confirm_results/G??_?"):
+for f in glob.glob("/tmp/confirm_results/C??_?") + glob.glob("/tmp/confirm_results/D??_?") + glob.glob("/tmp/confirm_results/E??_?") + glob.glob("/tmp/confirm_results/F??_?") + glob.glob("/tmp/confirm_results/G??_?") + glob.glob("/tmp/confirm_results/H??_?"):
     line = open(f).read().strip()
     tag = line.split()[0]
     res[tag] = line
 srcdirs = sys.argv[1:] or sorted(glob.glob("/tmp/mut/C??")) + sorted(glob.glob("/tmp/mut2/C??"))
 for d in srcdirs:
-    rnd = "r5" if "/mut5/" in d else "r4" if "/mut4/" in d else ("r3" if "/mut3/" in d else ("r2" if "/mut2/" in d else "r1"))
+    rnd = "r6" if "/mut6/" in d else "r5" if "/mut5/" in d else "r4" if "/mut4/" in d else ("r3" if "/mut3/" in d else ("r2" if "/mut2/" in d else "r1"))
     prop = os.path.basename(d)
     for x in "ab":
-        tag = f"{prop}_{x}" if rnd == "r1" else f"{ {'r2': 'D', 'r3': 'E', 'r4': 'F', 'r5': 'G'}[rnd] }{prop[1:]}_{x}"
+        tag = f"{prop}_{x}" if rnd == "r1" else f"{ {'r2': 'D', 'r3': 'E', 'r4': 'F', 'r5': 'G', 'r6': 'H'}[rnd] }{prop[1:]}_{x}"
         line = res.get(tag, "")
         if "clean_exit=0 mutant_exit=1" not in line or "194 passed" not in line:
             print("skip", tag, line[:80]); continue
